@@ -52,7 +52,7 @@ ASSUMPTIONS = [
 ]
 
 PROBES = ["add_array", "iadd_array", "mul_array", "div_array", "sub_array", "neg_setter",
-          "neg_factor", "oversub", "sub_ok",
+          "neg_factor", "oversub", "sub_ok", "neg_setter_tail", "oversub_tail",
           # refused with the switch on or off - they exercise the raising paths of the operators:
           "sub_incompatible", "sub_other_ndim", "add_incompatible", "isub_incompatible", "mul_hist", "div_hist"]
 ALWAYS_REFUSED = {"sub_incompatible", "sub_other_ndim", "add_incompatible", "isub_incompatible", "mul_hist", "div_hist"}
@@ -76,7 +76,9 @@ def gen_block(rng, depth, budget, spawnable, allow_raise):
         elif r < 0.45:
             out.append({"op": "read"})
         elif r < 0.75:
-            out.append({"op": "probe", "kind": rng.choice(PROBES), "nd": rng.random() < 0.25})
+            out.append({"op": "probe", "kind": rng.choice(PROBES), "nd": rng.random() < 0.25,
+                        # a few probes work on histograms of thousands of bins (block-wise guards)
+                        "wide": rng.random() < 0.06})
         elif r < 0.85:
             out.append({"op": "set", "v": rng.random() < 0.5})
         elif r < 0.92 and allow_raise:
@@ -164,11 +166,17 @@ class Interp:
         self.h1 = None
         self.h2 = None
 
-    def hist(self, nd):
-        from physt.binnings import StaticBinning
+    def hist(self, nd, wide=False):
+        from physt.binnings import FixedWidthBinning, StaticBinning
         from physt.histogram1d import Histogram1D
-        from physt.histogram_nd import Histogram2D
+        from physt.histogram_nd import Histogram2D, HistogramND
 
+        if wide and nd:
+            axes = [FixedWidthBinning(bin_width=0.25, bin_count=18, bin_times_min=0) for _ in range(3)]
+            return HistogramND(axes, frequencies=np.arange(1, 18 ** 3 + 1).reshape(18, 18, 18) % 7 + 1)
+        if wide:
+            return Histogram1D(FixedWidthBinning(bin_width=0.5, bin_count=5000, bin_times_min=0),
+                               frequencies=np.arange(1, 5001) % 7 + 1)
         if nd:
             return Histogram2D([StaticBinning([0.0, 1.0, 2.0]), StaticBinning([0.0, 1.0, 2.0, 3.0])],
                                frequencies=np.array([[1, 2, 3], [4, 5, 6]]))
@@ -192,8 +200,10 @@ class Interp:
                 f"(depth {self.depth}) but its own context implies {self.model!r}; "
                 f"other actors: {self.w.describe_others(self.actor.aid)}")
 
-    def probe(self, ctx, kind, nd):
-        h = self.hist(nd)
+    def probe(self, ctx, kind, nd, wide=False):
+        h = self.hist(nd, wide)
+        if wide:
+            ctx.probe("probe_on_wide_histogram")
         shape = h.shape
         arr = np.ones(shape, dtype=np.int64)
         if kind == "add_array":
@@ -214,6 +224,20 @@ class Interp:
                 c = h.copy()
                 c.frequencies = -np.ones(shape)
                 return c
+        elif kind == "neg_setter_tail":
+            def fn():
+                c = h.copy()
+                vals = np.array(c.frequencies, dtype=float)
+                vals.reshape(-1)[-1] = -1.0  # only the very last bin is negative
+                c.frequencies = vals
+                return c
+        elif kind == "oversub_tail":
+            def fn():
+                other = h.copy()
+                vals = np.zeros(shape)
+                vals.reshape(-1)[-1] = float(np.asarray(h.frequencies).reshape(-1)[-1]) + 2.0
+                other.frequencies = vals
+                return h - other  # negative in the last bin only
         elif kind == "neg_factor":
             fn = lambda: h * (-1)  # noqa: E731
         elif kind == "oversub":
@@ -235,7 +259,7 @@ class Interp:
                     c -= other
                     return c
         elif kind == "sub_other_ndim":
-            other = self.hist(not nd)
+            other = self.hist(not nd) if not wide else self.hist(nd, False)
             fn = lambda: h - other  # noqa: E731
         elif kind == "mul_hist":
             fn = lambda: h * h.copy()  # noqa: E731
@@ -311,7 +335,7 @@ class Interp:
                 ctx.ev(self.actor.aid, "set", self.depth, str(ins["v"]))
                 self.check_read(ctx, "after-set")
             elif op == "probe":
-                self.probe(ctx, ins["kind"], ins.get("nd", False))
+                self.probe(ctx, ins["kind"], ins.get("nd", False), ins.get("wide", False))
                 self.check_read(ctx, "after-probe:" + ("raising" if ins["kind"] in ALWAYS_REFUSED else "arith"))
             elif op == "raise":
                 if self.depth:
